@@ -9,6 +9,12 @@
 (* Elements are 1..NE (the harness makes spif_str objects whose text orders like the      *)
 (* number).  Probe arguments range over 0..NE+1: 0 is below every storable element, NE+1  *)
 (* above every one.                                                                       *)
+(* Element identity (round 3): elements that compare EQUAL may still be distinguishable (the   *)
+(* harness also runs with elements objpair(value, unique tag)).  WHERE among its equals an     *)
+(* element is kept is legitimately class-dependent, so tags are not part of this state; the    *)
+(* harness checks them as ownership / representation facts after every step (the set of tags   *)
+(* in the vector = inserted and not yet handed back; remove/find hand out a stored element)    *)
+(* and at dup, where DupIsEqual (b' = a) must hold slot by slot INCLUDING the tags.            *)
 (* Rule kinds (DESIGN.md 3): S = stated by the property, C = as-built convention.         *)
 EXTENDS Integers, Sequences, FiniteSets, TLC, Json
 
@@ -56,7 +62,8 @@ StepA(op, args, ret, x) == Step(op, args, ret, x, b, bl, it)
 StepQ(op, args, ret)    == Step(op, args, ret, a, b, bl, it)
 
 NoIter  == it = NIL                    \* program discipline: nothing is mutated while an iterator over A is alive
-Room    == bl => Diff(a, b) < BDepth   \* model bound on how far the two copies drift apart
+NOBOUND == 100000                      \* BDepth >= NOBOUND: no bound (trace validation; Diff is not evaluated)
+Room    == bl => (BDepth >= NOBOUND \/ Diff(a, b) < BDepth)   \* model bound on how far the two copies drift apart
 CanMutA == NoIter /\ Room
 CanMutB == NoIter /\ bl /\ Room
 
@@ -65,6 +72,15 @@ CanMutB == NoIter /\ bl /\ Room
 OpInsert(e) == /\ CanMutA /\ Len(a) < MaxLen /\ StepA("insert", <<e>>, TRUE, Ins(a, e))
 OpRemove(e) == LET r == Rem(a, e) IN
                /\ CanMutA /\ StepA("remove", <<e>>, r.ret, r.s)          \* the returned element is the caller's
+\* Aliased argument (round 3): the probe IS the stored element (as find() handed it out); it comes back to the caller.
+OpRemoveOwn(e) == LET r == Rem(a, e) IN
+               /\ CanMutA /\ Present(a, e) /\ StepA("remove_own", <<e>>, r.ret, r.s)
+\* Macro step for the size sweeps (round 3): insert(lo), insert(lo+st), .. <= hi in that order.  Only offered when every
+\* stored element is below lo, so the result is the plain concatenation (FillLaw ties it to Ins).
+FillSeq(lo, hi, st) == [i \in 1 .. ((hi - lo) \div st + 1) |-> lo + (i - 1) * st]
+OpFill(lo, hi, st) == /\ CanMutA /\ lo >= 1 /\ lo <= hi /\ st >= 1 /\ (IF a = <<>> THEN TRUE ELSE a[Len(a)] < lo)
+                      /\ Len(a) + Len(FillSeq(lo, hi, st)) <= MaxLen
+                      /\ StepA("fill", <<lo, hi, st>>, Len(FillSeq(lo, hi, st)), a \o FillSeq(lo, hi, st))
 OpDone      == /\ CanMutA /\ StepA("done", <<>>, TRUE, <<>>)             \* C06: empty and reusable
 
 (* queries on A: enabled in every state, also while an iterator or a copy is alive *)
@@ -96,6 +112,8 @@ Init == a = <<>> /\ b = <<>> /\ bl = FALSE /\ it = NIL
 
 Next == \/ \E e \in Elems : OpInsert(e) \/ OpBInsert(e)
         \/ \E e \in Probes : OpRemove(e) \/ OpFind(e) \/ OpContains(e) \/ OpBRemove(e) \/ OpBFind(e)
+        \/ \E e \in Elems : OpRemoveOwn(e)
+        \/ \E lo \in Elems, hi \in Elems, st \in 1 .. 2 : (st = 1 \/ hi - lo >= 2) /\ OpFill(lo, hi, st)
         \/ OpDone \/ OpCount \/ OpToArray
         \/ OpIterNew \/ OpIterHasNext \/ OpIterNext \/ OpIterDel
         \/ OpDup \/ OpDelB \/ OpAdopt
@@ -130,6 +148,12 @@ FindIffPresent == \A e \in Probes :
     /\ (FindRes(a, e) # NONE) <=> Cnt(a, e) > 0
     /\ FindRes(a, e) # NONE => FindRes(a, e) = e
     /\ e \notin Elems => FindRes(a, e) = NONE
+
+\* the macro step is the iteration of insert: checked against Ins on the whole bounded universe
+FillLaw == \A lo \in Elems, hi \in Elems, st \in 1 .. 2 : (lo <= hi /\ (IF a = <<>> THEN TRUE ELSE a[Len(a)] < lo)) =>
+    LET RECURSIVE It(_, _)
+        It(s, e) == IF e > hi THEN s ELSE It(Ins(s, e), e + st)
+    IN  It(a, lo) = a \o FillSeq(lo, hi, st)
 
 IterLaw == it # NIL => it <= Len(a) + 1
 \* action properties (checked on every generated transition)
